@@ -10,7 +10,8 @@
    u32 the same way), so a larger image is outside what the wire format can describe.
    image_wf is also evaluated on every image portus produces in the correspondence streams.
    Proofs: Portus.Lang.ImageWf (final theorem emitted_image_wf), Portus.Lang.ImageFacts. *)
-From Portus Require Import Image ImageSpec ImageFacts ParserFacts TotalFacts ImageWf.
+From Portus Require Import Image ImageSpec ImageFacts ParserFacts TotalFacts ImageWf TablesTie.
+From PortusGen Require Import LangTables.
 
 Definition C03_full_statement : Prop :=
   forall src ups bytes sc b sc',
@@ -76,3 +77,26 @@ Proof. vm_compute. split; reflexivity. Qed.
 Example C03_example_nine_operators_rejected :
   compile_and_serialize (lit "(def (Report (x 0))) (when true (:= Report.x (+ 1 (+ 1 (+ 1 (+ 1 (+ 1 (+ 1 (+ 1 (+ 1 (+ 1 1)))))))))))") [] = inl Err.
 Proof. vm_compute. reflexivity. Qed.
+
+(* translator obligations (lib/gen_langtables.py reads serialize_op and the register encoder from
+   src/lang/serialize.rs on every run): opcodes, class codes and index limits are the model's *)
+Theorem C03_source_opcodes_are_the_models :
+  length impl_opcodes = length all_ops /\
+  forallb (fun o => existsb (fun p => op_eqb (fst p) o && optn_eqb (snd p) (ser_op_opt o)) impl_opcodes) all_ops = true.
+Proof. exact opcodes_tie. Qed.
+Print Assumptions C03_source_opcodes_are_the_models.
+
+Theorem C03_source_register_limits_are_the_models :
+  (impl_lim_control, impl_lim_implicit, impl_lim_local, impl_lim_primitive, impl_lim_report, impl_lim_tmp) =
+  (LIM_CONTROL, LIM_IMPLICIT, LIM_LOCAL, LIM_PRIMITIVE, LIM_REPORT, LIM_TMP).
+Proof. exact reg_limits_tie. Qed.
+Print Assumptions C03_source_register_limits_are_the_models.
+
+Theorem C03_source_register_class_codes_are_the_models :
+  reg_code (Control 0 TNone true) = Ok (impl_code_control_vol, 0) /\ reg_code (Control 0 TNone false) = Ok (impl_code_control, 0) /\
+  reg_code (Report 0 TNone true) = Ok (impl_code_report_vol, 0) /\ reg_code (Report 0 TNone false) = Ok (impl_code_report, 0) /\
+  reg_code (ImmBool true) = Ok (impl_code_immbool, 1) /\ reg_code (ImmNum 0) = Ok (impl_code_immnum, 0) /\
+  reg_code (Implicit 0 TNone) = Ok (impl_code_implicit, 0) /\ reg_code (Local 0 TNone) = Ok (impl_code_local, 0) /\
+  reg_code (Primitive 0 TNone) = Ok (impl_code_primitive, 0) /\ reg_code (Tmp 0 TNone) = Ok (impl_code_tmp, 0).
+Proof. exact reg_codes_tie. Qed.
+Print Assumptions C03_source_register_class_codes_are_the_models.
